@@ -206,8 +206,7 @@ def symPack (n : Nat) (stmts : List PStmt) : Option (List (List SBit)) := symPac
 `q = 8j + 7 − b` (MSB first) holds bit `n−1 − q % n` of field `q / n`. -/
 def specPackLayout (n : Nat) : List (List SBit) :=
   (List.range n).map fun j => (List.range 8).map fun b =>
-    let P := 8 * (n - 1 - j) + b
-    SBit.src (7 - P / n) (P % n)
+    SBit.src (7 - (8 * (n - 1 - j) + b) / n) ((8 * (n - 1 - j) + b) % n)
 
 /-- bits of the operand `(byte >> pre) & mask` of an unpack statement reading byte `j` -/
 def xbit (j pre mask t : Nat) : SBit :=
@@ -253,9 +252,7 @@ def symUnpack (n : Nat) (stmts : List UStmt) : Option (List (List SBit)) :=
 number, i.e. bit `P % 8` of byte `n−1 − P / 8`; bits `p ≥ n` are zero. -/
 def specUnpackLayout (n : Nat) : List (List SBit) :=
   (List.range 8).map fun i => (List.range 64).map fun p =>
-    if p < n then
-      let P := n * (7 - i) + p
-      SBit.src (n - 1 - P / 8) (P % 8)
+    if p < n then SBit.src (n - 1 - (n * (7 - i) + p) / 8) ((n * (7 - i) + p) % 8)
     else SBit.zero
 
 def lookupNat {α : Type} (k : Nat) : List (Nat × α) → Option α
